@@ -14,6 +14,7 @@ func ledgerMonitors() []Monitor {
 		{"C21", "multisig", monC21},
 		{"C07", "cache", monC07},
 		{"C48", "governance", monC48},
+		{"C48", "globals-in-force", gfMonGlobalsInForce},
 		{"C12", "challenge-pool", monC12},
 		{"C13", "capacity", monC13},
 		{"C14", "close", monC14},
